@@ -66,7 +66,8 @@ func (E *Engine) chanMsgSpec(elem types.Type) *ChanSpec {
 		for _, cs := range E.CS.ChanMsgs {
 			T, ok := E.tryResolve(cs.Msg.Ctx, cs.Elem)
 			if !ok {
-				E.note("chanmsg: cannot resolve element type %s", cs.Path)
+				// a type declared inside a function: go/types prints it as pkgpath.Name too
+				E.chanMsgs[cs.Msg.Ctx.PkgPath+"|"+cs.Msg.Ctx.PkgPath+"."+cs.Path] = cs
 				continue
 			}
 			E.chanMsgs[cs.Msg.Ctx.PkgPath+"|"+typeKey(T)] = cs
